@@ -1,6 +1,7 @@
 import RpmVerif.Driver.Common
 import RpmVerif.Model.Header
 import RpmVerif.Model.Cpio
+import RpmVerif.Model.AddData
 /-!
 Driver for C07 (see harness/src/c07.rs for the request and observation formats).
 
@@ -117,10 +118,14 @@ def parseF (t : String) : Option Spec :=
     pure ⟨dest, perm, size, kind, seed⟩
   | _ => none
 
-/-- `add_data`: cpio path = dest when it starts with '.', else "." ++ dest -/
-def cpioPath (dest : Bytes) : Bytes := if dest.head? = some 46 then dest else 46 :: dest
-/-- header path = dir ++ basename; for the normalised destinations the generator uses this is the
-cpio path without its leading '.' -/
+/-- `add_data` (Model/AddData.lean): the archive name is "." ++ dir ++ base name, with dir / base name split off the destination
+by `std::path` (so `/srv/d///f` and `/srv/d/f` are ONE file, `/opt//conf/s` and `/opt/conf/s` are two). The generator only
+sends destinations `add_data` accepts; for anything else the old reading (dest, or "." ++ dest) is kept. -/
+def cpioPath (dest : Bytes) : Bytes :=
+  match RpmVerif.AddData.addData dest with
+  | .ok r => r.1
+  | _ => if dest.head? = some 46 then dest else 46 :: dest
+/-- header path = dir ++ basename = the cpio path without its leading '.' -/
 def headerPath (cpio : Bytes) : Bytes := cpio.drop 1
 
 def firstDiff (exp imp : List IItem) : String :=
